@@ -55,6 +55,19 @@ func runC15(c *Ctx) {
 			for i := range vs {
 				vs[i] = ref.Pick(r, versionPool)
 			}
+			if r.Chance(1, 6) {
+				// scale: a long list (9-40 versions), mostly single-segment ones, in random order with a few pool entries mixed in
+				n = r.Range(9, 40)
+				vs = vs[:0]
+				for i := 0; i < n; i++ {
+					if r.Chance(1, 8) {
+						vs = append(vs, ref.Pick(r, versionPool))
+					} else {
+						vs = append(vs, fmt.Sprintf("v%d", r.Range(1, 30)))
+					}
+				}
+				c.Class("path_version_list_of_9plus")
+			}
 			orig := append([]string(nil), vs...)
 			param := ref.Pick(r, []string{"ver", "", "version"})
 			m := mux.NewPathVersion(param, vs...)
@@ -133,6 +146,10 @@ func runC15(c *Ctx) {
 			effKey = "version"
 		}
 		vs := []string{ref.Pick(r, []string{"1", "2", "1.0", "beta"}), ref.Pick(r, []string{"3", "v3", "2"})}
+		if r.Chance(1, 5) {
+			vs = append(vs, "") // the empty string is a legal version: `version=""` must then be accepted
+			ref.Shuffle(r, vs)
+		}
 		param := ref.Pick(r, []string{"ver", ""})
 		var logged int
 		m := mux.NewHeaderVersion(param, key, func(error) { logged++ }, vs...)
@@ -171,12 +188,18 @@ func runC15(c *Ctx) {
 				wantOK = contains(vs, val)
 				wantVal = val
 			}
+			present := byConstruction
 			if !byConstruction && accept != "" {
 				// garbage: mime.ParseMediaType is the definitional parser
 				if _, ps, err := mime.ParseMediaType(accept); err == nil {
 					wantOK = contains(vs, ps[effKey])
 					wantVal = ps[effKey]
+					_, present = ps[effKey]
 				}
+			}
+			if contains(vs, "") && !present {
+				c.Class("unjudged_absent_parameter_with_empty_version_listed") // the property does not say whether "absent" equals the empty version
+				continue
 			}
 			req := &http.Request{Method: "GET", URL: &url.URL{Path: "/p"}, Header: http.Header{}, Host: "h"}
 			if accept != "" || r.Bool() {
